@@ -592,6 +592,9 @@ func runC18(ctx *core.Ctx) {
 	c18Files(ctx)
 	c18Octal(ctx)
 	c18Rename(ctx)
+	c18Canon(ctx)
+	c18Glue(ctx)
+	c18Line(ctx)
 	c18Coverage(ctx)
 }
 
